@@ -2,7 +2,10 @@
 
 from __future__ import annotations
 
+import copy
+import enum
 import itertools
+import pickle
 
 import numpy as np
 import scipp as sc
@@ -23,12 +26,29 @@ RULE = (
     '(for every origin x target x scatter: subsets along the derivation depth, the shallowest sufficient subset '
     'and two random ones; empty pixel selection, length-1 and 0-d single pixel, binned data without events; every '
     'coordinate the model reads made NaN everywhere / NaN for one pixel / infinite / zero): presence decides, '
-    'contents do not; distinct = configurations x contents class; trivial = none'
+    'contents do not; both tiers add ~4600 cases of further input classes on, for every origin x target x scatter, '
+    'everything supplied / positions only / the shallowest sufficient subset / one refused subset / a second or '
+    'bystander energy coordinate: a coordinate the derivation reads (or a bystander, or the data) carrying variances '
+    '(dense, events, single pixel; uncertainty of the target = first-order propagation where the coordinate occurs '
+    'once in the documented formula and scipp defines the operations), masks at pixel / bin / event level named '
+    'like target and origin, pixel and event dimensions named like origin / target / graph nodes / generic names, '
+    'Datasets with 0 (sc.Dataset(coords=...)), a deleted and 2 items, names as numpy.str_ / (str, Enum) / StrEnum, '
+    'all three calling conventions of convert / deduce_conversion_graph / conversion_graph, call sequences (same '
+    'call again, refused call then the coordinate added, graphs handed out earlier mutated, deepcopy as input; '
+    'repr / copy / == / pickle between two calls), caller subclasses of the containers, bins of different sizes, '
+    'the reported graph applied by the caller with transform_coords; one extra shard per run holds 12 conversions '
+    'on 2**20 + 7 pixels / 3 x 400001 events / 2**20 + 7 events in ragged bins; distinct = configurations x '
+    'contents class x input class; trivial = none'
 )
 ASSUMPTIONS = [
     'the derivability rule is the one of the user guide: present coordinates are used, missing ones derived '
     'recursively from the documented inputs, failure if an input is missing',
     'auxiliary inputs ub_matrix, sample_rotation, pulse_time are always present',
+    'uncertainties: a coordinate consists of values and, if supplied, variances; where the supplied coordinate with '
+    'variances occurs once in the documented formula the variance of the target is (d target / d coordinate)^2 x '
+    'variance (analytic derivatives of the documented formulas, chain rule, long double); where it occurs more '
+    'than once only the values are judged; where scipp refuses the arithmetic for operands with variances (broadcast, sin, assembling '
+    'vectors) its VariancesError - a RuntimeError - is a counted refusal',
 ]
 N = 3
 AUX = ['ub_matrix', 'sample_rotation', 'pulse_time']
@@ -88,13 +108,16 @@ def n_configs():
     return 4 * 16 * 2 * 2048
 
 
-def make_values(rng, origin):
+ORIGIN_RANGE = {'tof': (2e4, 1e5), 'wavelength': (0.5, 10), 'energy': (1, 100), 'Q': (0.5, 10)}
+
+
+def make_values(rng, origin, N=N):
     """Random, mutually inconsistent values (float64) for every coordinate that may appear."""
     v = {
-        'tof': rng.uniform(2e4, 1e5, size=N),
-        'wavelength': rng.uniform(0.5, 10, size=N),
-        'energy': rng.uniform(1, 100, size=N),
-        'Q': rng.uniform(0.5, 10, size=N),
+        'tof': rng.uniform(*ORIGIN_RANGE['tof'], size=N),
+        'wavelength': rng.uniform(*ORIGIN_RANGE['wavelength'], size=N),
+        'energy': rng.uniform(*ORIGIN_RANGE['energy'], size=N),
+        'Q': rng.uniform(*ORIGIN_RANGE['Q'], size=N),
         'position': rng.normal(size=(N, 3)) * 2 + [0, 0.5, 3],
         'source_position': rng.normal(size=3) + [0, 0, -12],
         'sample_position': rng.normal(size=3) * 0.3,
@@ -116,8 +139,42 @@ def make_values(rng, origin):
 OUTER_NAMES = ('source_position', 'incident_beam', 'L1', 'incident_energy')
 
 
-def build(rng, origin, present, values, container, binned, outer=None, noevents=False):
+class _DataArraySub(sc.DataArray):
+    """A caller's own subclass of the documented container class (no overrides)."""
+
+
+class _DatasetSub(sc.Dataset):
+    """A caller's own subclass of the documented container class (no overrides)."""
+
+
+def _set_variances(v, variances):
+    v = v.copy()
+    if v.ndim == 0:
+        v.variance = float(variances)
+    else:
+        v.variances = np.asarray(variances, dtype=np.float64)
+    return v
+
+
+def build(rng, origin, present, values, container, binned, outer=None, noevents=False, opts=None):
+    """opts (all optional): n pixels; counts = events per pixel (values[origin] then has one entry per event);
+    var = (name, variances) the coordinate that carries variances; datavar: the data carry variances;
+    masks in {'pixel', 'bin', 'event', 'both'} (named like the target and the origin); evdim: name of the event
+    dimension; items = number of data items of a Dataset (0: `sc.Dataset(coords=...)`); subclass."""
+    opts = opts or {}
+    n = opts.get('n', N)
+    counts = opts.get('counts')
+    varname, variances = opts.get('var') or (None, None)
+    evdim = opts.get('evdim', 'event')
+    mask_names = opts.get('mask_names', ('m1', 'm2'))
+
     def var(name):
+        v = var_(name)
+        if name == varname:
+            v = _set_variances(v, variances)
+        return v
+
+    def var_(name):
         x = values[name]
         if outer and name in OUTER_NAMES:
             # several source-side settings along their own dimension (e.g. one per run)
@@ -144,26 +201,57 @@ def build(rng, origin, present, values, container, binned, outer=None, noevents=
             return sc.scalar(float(x), unit=unit)
         return sc.array(dims=['pixel'], values=x, unit=unit)
 
-    coords = {n: var(n) for n in [*present, *AUX]}
+    def weights(dim, m):
+        w = sc.ones(dims=[dim], shape=[m], unit='counts')
+        if opts.get('datavar'):
+            w.variances = np.full(m, 1.0)
+        return w
+
+    def pixel_mask(k):
+        return sc.array(dims=['pixel'], values=(np.arange(n) + k) % 2 == 0)
+
+    coords = {nm: var(nm) for nm in [*present, *AUX]}
+    masks = opts.get('masks')
     if binned:
-        # one event per pixel: event coordinate = origin
+        # one event per pixel unless `counts` says otherwise: event coordinate = origin
         if noevents:
             # every pixel has an empty event list
-            ev = sc.DataArray(sc.ones(dims=['event'], shape=[0], unit='counts'),
-                              coords={origin: sc.array(dims=['event'], values=values[origin][0:0], unit=UNIT[origin])})
-            zero = sc.zeros(dims=['pixel'], shape=[N], dtype='int64', unit=None)
-            data = sc.bins(begin=zero, end=zero.copy(), dim='event', data=ev)
+            ev = sc.DataArray(sc.ones(dims=[evdim], shape=[0], unit='counts'),
+                              coords={origin: sc.array(dims=[evdim], values=values[origin][0:0], unit=UNIT[origin])})
+            zero = sc.zeros(dims=['pixel'], shape=[n], dtype='int64', unit=None)
+            data = sc.bins(begin=zero, end=zero.copy(), dim=evdim, data=ev)
         else:
-            ev = sc.DataArray(sc.ones(dims=['event'], shape=[N], unit='counts'),
-                              coords={origin: sc.array(dims=['event'], values=values[origin], unit=UNIT[origin])})
-            data = sc.bins(begin=sc.arange('pixel', N, unit=None), end=sc.arange('pixel', 1, N + 1, unit=None),
-                           dim='event', data=ev)
+            x = np.asarray(values[origin])
+            oc = sc.array(dims=[evdim], values=x, unit=UNIT[origin])
+            if varname == origin:
+                oc = _set_variances(oc, variances)
+            ev = sc.DataArray(weights(evdim, len(x)), coords={origin: oc})
+            if masks in ('event', 'both'):
+                ev.masks[mask_names[0]] = sc.array(dims=[evdim], values=np.arange(len(x)) % 3 == 1)
+            end = np.cumsum(counts if counts is not None else np.ones(n, dtype=np.int64))
+            begin = end - (counts if counts is not None else 1)
+            data = sc.bins(begin=sc.array(dims=['pixel'], values=begin, unit=None, dtype='int64'),
+                           end=sc.array(dims=['pixel'], values=end, unit=None, dtype='int64'), dim=evdim, data=ev)
         da = sc.DataArray(data, coords=coords)
+        if masks in ('bin', 'both'):
+            da.masks[mask_names[1]] = pixel_mask(1)
     else:
         coords[origin] = var(origin)
-        da = sc.DataArray(sc.ones(dims=['pixel'], shape=[N]), coords=coords)
+        if opts.get('items') == 0:
+            # a container without data items: the coordinates belong to the Dataset itself
+            return sc.Dataset(coords=coords)
+        da = sc.DataArray(weights('pixel', n), coords=coords)
+        if masks in ('pixel', 'both'):
+            da.masks[mask_names[0]] = pixel_mask(0)
+            if masks == 'both':
+                da.masks[mask_names[1]] = pixel_mask(1)
+    if opts.get('subclass'):
+        da = _DataArraySub(da.data, coords=dict(da.coords), masks=dict(da.masks))
     if container == 'dataset':
-        return sc.Dataset({'a': da})
+        items = {'a': da}
+        if opts.get('items') == 2:
+            items['b'] = da * sc.scalar(2.0)
+        return _DatasetSub(items) if opts.get('subclass') else sc.Dataset(items)
     return da
 
 
@@ -174,11 +262,14 @@ def model_values(values):
     return out
 
 
-def _events(c):
+def _events(c, what='values'):
     """Event values of the bins that belong to `c` (a slice of binned data shares the buffer of the whole)."""
     k = c.bins.constituents
     d = k['data']
-    vals = np.asarray(d.values)
+    vals = getattr(d, what)
+    if vals is None:
+        return None, d.unit
+    vals = np.asarray(vals)
     b = np.asarray(k['begin'].values).reshape(-1)
     e = np.asarray(k['end'].values).reshape(-1)
     if len(b) == 0:
@@ -188,16 +279,24 @@ def _events(c):
     return np.concatenate([vals[i:j] for i, j in zip(b, e, strict=True)]), d.unit
 
 
-def get_coord(res, name, binned):
+def _item(x):
+    """The object that carries the coordinates: the item of a Dataset, the Dataset itself if it has no items."""
+    if isinstance(x, sc.Dataset):
+        return x['a'] if 'a' in x else x
+    return x
+
+
+def get_coord(res, name, binned, what='values'):
     """(values, unit, event_level)"""
-    obj = res['a'] if isinstance(res, sc.Dataset) else res
-    if binned and name in obj.bins.coords:
-        return (*_events(obj.bins.coords[name]), True)
+    obj = _item(res)
+    if binned and not isinstance(obj, sc.Dataset) and name in obj.bins.coords:
+        return (*_events(obj.bins.coords[name], what), True)
     if name in obj.coords:
         c = obj.coords[name]
         if c.bins is not None:
-            return (*_events(c), True)
-        return np.asarray(c.values), c.unit, False
+            return (*_events(c, what), True)
+        v = getattr(c, what)
+        return (None if v is None else np.asarray(v)), c.unit, False
     return None, None, False
 
 
@@ -239,13 +338,17 @@ def select_values(values, select):
 
 
 def check_supplied(ctx, data, res, present, case, vkeys):
-    src = data['a'] if isinstance(data, sc.Dataset) else data
-    obj = res['a'] if isinstance(res, sc.Dataset) else res
+    src = _item(data)
+    obj = _item(res)
     for nm in present:
         if nm not in obj.coords:
             continue
         a, b = obj.coords[nm], src.coords[nm]
         ctx.event('supplied_kept')
+        if (a.variances is None) != (b.variances is None) or (
+                a.variances is not None and not np.array_equal(np.asarray(a.variances), np.asarray(b.variances))):
+            ctx.violation('supplied_replaced', f'the supplied coordinate {nm} comes back with different variances '
+                          f'({a.variances} instead of {b.variances})', case, name=nm, **vkeys)
         if a.unit != b.unit or not np.array_equal(np.asarray(a.values), np.asarray(b.values), equal_nan=True):
             ctx.violation('supplied_replaced', f'the supplied coordinate {nm} comes back with different contents '
                           f'({np.asarray(a.values).tolist()} {a.unit} instead of {np.asarray(b.values).tolist()} {b.unit})',
@@ -337,10 +440,142 @@ class Watch:
             self.graph = g
 
 
+# ------------------------------------------------------------ further input classes ---
+# Classes of inputs / call sequences / states that the quantifier covers ("every origin, target, scatter flag and
+# every subset of coordinates present; DataArray and Dataset containers") but random coordinate values on one
+# fixed layout never produce.  Every class is a deterministic part of every run (see axis_plan()).
+AXIS_CLASSES = {
+    'var:origin:dense': 'origin coordinate with variances, dense data',
+    'var:origin:events': 'event coordinate with variances',
+    'var:origin:single': 'origin coordinate with variances, single pixel (0-d / length 1)',
+    'var:perpixel': 'supplied per-pixel coordinate (length, angle, energy) with variances',
+    'var:scalar': 'supplied scalar coordinate (L1, incident_energy) with variances, single-pixel data',
+    'var:bystander': 'a coordinate the derivation does not read carries variances',
+    'var:data': 'data (weights) with variances',
+    'masks:pixel': 'per-pixel mask on dense data, named like the target',
+    'masks:bin': 'bin-level mask on binned data',
+    'masks:event': 'event-level mask inside the bins',
+    'masks:both': 'two masks at both levels, named like target and origin',
+    'dims:origin': 'pixel dimension named like the origin coordinate (dimension-coordinate)',
+    'dims:target': 'pixel dimension named like the target',
+    'dims:node': 'pixel dimension named like an intermediate of the graph (Ltotal, wavelength, two_theta)',
+    'dims:generic': "pixel dimension named 'event' / 'x' / 'row'",
+    'dims:event': 'event dimension named like the origin / the target / the pixel dimension',
+    'items:0': 'Dataset without data items (sc.Dataset(coords=...))',
+    'items:deleted': 'Dataset whose only item was deleted between two convert calls',
+    'items:2': 'Dataset with two items',
+    'names:npstr': 'origin / target / energy_mode as numpy.str_',
+    'names:enum': 'origin / target / energy_mode as members of a (str, Enum) class',
+    'names:strenum': 'origin / target / energy_mode as StrEnum members',
+    'second:again': 'the same call repeated on the same object',
+    'second:after_refusal': 'a refused call caught, the missing coordinate added, the call repeated',
+    'second:graph_mutated': 'graphs handed out earlier were emptied / extended by the caller',
+    'second:deepcopy_input': 'the input is a deepcopy of the data',
+    'between:repr': 'repr / str of data, result and graph between two calls',
+    'between:copy': 'copy / deepcopy of data, result and graph between two calls',
+    'between:eq': '== / identical of data, result and graph between two calls',
+    'between:pickle_graph': 'pickle round trip of the reported graph between two calls',
+    'subclass': "caller's own subclass of DataArray / Dataset",
+    'ragged': 'bins of different sizes including an empty one',
+}
+HEAVY_CLASSES = {
+    'heavy:dense': 'dense data with 2**20 + 7 pixels',
+    'heavy:events': '3 pixels x 400001 events',
+    'heavy:ragged': '2**20 + 7 events in 5 bins of different sizes',
+}
+NAME_FORMS = {
+    'npstr': np.str_,
+    'enum': lambda s, _c={}: _c.setdefault(s, enum.Enum('Name_' + s, {s: s}, type=str))[s],
+    'strenum': lambda s, _c={}: _c.setdefault(s, enum.StrEnum('SName_' + s, {s: s}))[s],
+}
+
+
+def leaf_dims(name, origin, binned, select):
+    d = set()
+    if name == origin:
+        d = {'pixel', 'event'} if binned else {'pixel'}
+    elif name in PER_PIXEL:
+        d = {'pixel'}
+    if select == 'scalar':
+        d.discard('pixel')
+    return d
+
+
+def variance_class(origin, target, scatter, mode, present, nodes, vn, binned, select):
+    """What the property + scipp's arithmetic say about the uncertainty of the target when `vn` carries variances:
+    'unused' (target does not depend on it: no variances), 'defined' (occurs once, nothing scipp refuses: first
+    order), 'ambiguous' (occurs more than once: values only), 'undefined:*' (scipp's arithmetic refuses the
+    operation for operands with variances: VariancesError, a RuntimeError, is an allowed outcome)."""
+    have = [*present, *AUX, origin]
+    table = G.table_for(origin, target, scatter, mode)
+    occ = G.occurrences(target, vn, have, table)
+    if occ == 0:
+        return 'unused'
+    leaves = G.used_inputs(target, have, table)
+    result_dims = set().union(*(leaf_dims(x, origin, binned, select) for x in leaves))
+    if leaf_dims(vn, origin, binned, select) != result_dims:
+        return 'undefined:broadcast'
+    if vn == 'two_theta' and target != 'two_theta':
+        return 'undefined:sin'
+    if 'Q_vec' in nodes:
+        return 'undefined:vector'
+    return 'ambiguous' if occ > 1 else 'defined'
+
+
+def _same_result(a, b, target):
+    if type(a) is type(b) and (not isinstance(a, sc.Dataset) or set(a.keys()) == set(b.keys())):
+        return sc.identical(a, b, equal_nan=True)
+    # containers differ (an item was removed in between): the coordinates of the container are what counts
+    ca, cb = _item(a).coords, _item(b).coords
+    return (target in ca) == (target in cb) and (target not in ca or sc.identical(ca[target], cb[target],
+                                                                                  equal_nan=True))
+
+
+def between_calls(kind, data, res0, graph, ctx):
+    """Display / copy / comparison / serialisation of the objects involved; none of it may change a later result."""
+    objs = [data, graph] + ([res0] if res0 is not None else [])
+    if kind == 'repr':
+        for o in objs:
+            repr(o)
+            str(o)
+            if hasattr(o, '_repr_html_'):
+                o._repr_html_()
+    elif kind == 'copy':
+        for o in objs:
+            copy.copy(o)
+            copy.deepcopy(o)
+            if hasattr(o, 'copy'):
+                o.copy()
+    elif kind == 'eq':
+        for o in objs:
+            if isinstance(o, dict):
+                assert o == dict(o)
+            else:
+                sc.identical(o, o, equal_nan=True)
+                try:
+                    o == o  # noqa: B015  (element-wise for DataArray; may be undefined for a container)
+                except Exception:  # noqa: BLE001
+                    ctx.count('between:eq_not_defined_for_' + type(o).__name__)
+    elif kind == 'pickle_graph':
+        try:
+            g2 = pickle.loads(pickle.dumps(graph))  # noqa: S301
+            ctx.count('between:graph_pickled' if all(g2[k] is graph[k] for k in graph) else
+                      'between:graph_unpickled_to_other_functions')
+        except Exception:  # noqa: BLE001
+            ctx.count('between:graph_not_picklable')
+
+
 def run_config(rng, ctx, scn, CV, watch, index, tracer, variant=None):
     origin, target, scatter, present = config_of(index)
-    values = make_values(rng, origin)
+    ax = (variant or {}).get('axis') or {}
+    n = ax.get('n', N)
+    values = make_values(rng, origin, n)
+    counts = ax.get('counts')
+    if counts is not None:
+        counts = np.asarray(counts, dtype=np.int64)
+        values[origin] = rng.uniform(*ORIGIN_RANGE[origin], size=int(counts.sum()))
     select = special = None
+    vn, vvar = ax.get('var'), None
     if variant is None:
         container = 'dataset' if index % 3 == 0 else 'dataarray'
         binned = index % 4 == 1
@@ -354,12 +589,25 @@ def run_config(rng, ctx, scn, CV, watch, index, tracer, variant=None):
         select, special = variant.get('select'), variant.get('special')
         if special:
             apply_special(values, *special)
-        data = build(rng, origin, present, values, container, binned, noevents=select == 'noevents')
+        opts = None
+        if ax:
+            if vn:
+                base = np.abs(np.asarray(values[vn], dtype=np.float64))
+                vvar = (rng.uniform(0.5, 2, size=base.shape) * 1e-3 * base) ** 2
+            opts = {'n': n, 'counts': counts, 'var': (vn, vvar) if vn else None, 'datavar': ax.get('datavar'),
+                    'masks': ax.get('masks'), 'mask_names': (target, origin), 'evdim': ax.get('evdim', 'event'),
+                    'items': 0 if ax.get('items') == 0 else 2 if ax.get('items') == 2 else None,
+                    'subclass': ax.get('subclass')}
+        data = build(rng, origin, present, values, container, binned, noevents=select == 'noevents', opts=opts)
         if select in SLICES:
             data = data['pixel', SLICES[select]]
             if variant.get('copy'):
                 data = data.copy()
             values = select_values(values, select)
+            if vn in PER_PIXEL:
+                vvar = vvar[SLICES[select]]
+        if ax.get('pixdim') and 'pixel' in data.dims:
+            data = data.rename_dims({'pixel': ax['pixdim']})
     # a supplied coordinate counts whatever its alignment flag says (integer slicing and earlier conversions
     # leave coordinates unaligned); one configuration in eleven supplies all of them unaligned
     unaligned = index % 11 == 7 and variant is None
@@ -370,14 +618,23 @@ def run_config(rng, ctx, scn, CV, watch, index, tracer, variant=None):
             except Exception:  # noqa: BLE001  (event coordinate: lives in the bins)
                 pass
         ctx.hit('supplied coordinates unaligned')
-    verdict, nodes, mode = G.decide(origin, target, scatter, [*present, *AUX, origin])
+    have = [*present, *AUX, origin]
+    verdict, nodes, mode = G.decide(origin, target, scatter, have)
     case = {'origin': origin, 'target': target, 'scatter': scatter, 'present': present, 'container': container,
             'binned': binned, 'model': verdict, 'model_detail': nodes, 'index': index, 'outer_dim': outer,
             'unaligned': unaligned}
     vkeys = {}
-    if variant is not None:
+    if ax:
+        case['variant'] = {k: v for k, v in variant.items() if k not in ('container', 'binned', 'axis')}
+        case['class'] = {k: (v if k != 'counts' or len(v) <= 8 else f'{len(v)} bins') for k, v in ax.items()}
+        vkeys = {'cls': ax['family']}
+    elif variant is not None:
         case['variant'] = {k: v for k, v in variant.items() if k not in ('container', 'binned')}
         vkeys = {'contents': '+'.join(x for x in (select, special and special[1]) if x)}
+    vclass = None
+    if vn and verdict == 'ok':
+        vclass = variance_class(origin, target, scatter, mode, present, nodes, vn, binned, select)
+        case['variance_model'] = vclass
     watch.kernels, watch.graph, watch.k_depth = [], None, 0
     # the flag is a truth value: callers also pass numpy booleans (np.any(...)) or 0/1
     flag_form = index % 7
@@ -387,14 +644,91 @@ def run_config(rng, ctx, scn, CV, watch, index, tracer, variant=None):
     elif flag_form == 2:
         scatter_arg = int(scatter)
     case['scatter_flag_type'] = type(scatter_arg).__name__
-    try:
-        style = index % 3  # documented parameter names and order: (data, origin, target, scatter)
+    # the names are strings: callers also pass numpy strings or members of string enumerations
+    form = NAME_FORMS.get(ax.get('names'), str)
+    o_arg, t_arg = form(origin), form(target)
+    style = index % 3  # documented parameter names and order: (data, origin, target, scatter)
+
+    def call(d, t=t_arg):
         if style == 0:
-            res = scn.convert(data, origin, target, scatter_arg)
-        elif style == 1:
-            res = scn.convert(data=data, origin=origin, target=target, scatter=scatter_arg)
-        else:
-            res = scn.convert(data, origin, target, scatter=scatter_arg)
+            return scn.convert(d, o_arg, t, scatter_arg)
+        if style == 1:
+            return scn.convert(data=d, origin=o_arg, target=t, scatter=scatter_arg)
+        return scn.convert(d, o_arg, t, scatter=scatter_arg)
+
+    def graphs(d, k):
+        if k == 0:
+            return CV.deduce_conversion_graph(d, o_arg, t_arg, scatter_arg)
+        if k == 1:
+            return CV.deduce_conversion_graph(data=d, origin=o_arg, target=t_arg, scatter=scatter_arg)
+        return CV.deduce_conversion_graph(d, o_arg, target=t_arg, scatter=scatter_arg)
+
+    def first_call(d, want, step):
+        """An earlier call of a sequence; judged against the model like any other.  ('ok', res) / ('refuse', None) /
+        None after a violation."""
+        try:
+            r = call(d)
+            got = 'ok'
+        except RuntimeError as e:
+            r, got = None, 'refuse'
+            if isinstance(e, sc.VariancesError) and vclass and vclass.startswith('undefined'):
+                return got, r
+        except Exception as e:  # noqa: BLE001
+            ctx.violation('wrong_exception', f'{step}: convert raised {type(e).__name__} (only RuntimeError is '
+                          f'documented): {e}', case, exc=type(e).__name__)
+            return None
+        ctx.event('sequence_step')
+        if got != want:
+            ctx.violation('refused_derivable' if want == 'ok' else 'answered_underivable',
+                          f'{step}: convert {"raised RuntimeError" if got == "refuse" else "returned"} but the model '
+                          f'says {want}', case, target=target, origin=origin, **vkeys)
+            return None
+        return got, r
+
+    # ---- call sequences: what happened to the same objects before this call
+    pre, first = ax.get('pre'), None
+    try:
+        if pre in ('again', 'repr', 'copy', 'eq', 'pickle_graph', 'delete_item'):
+            first = first_call(data, verdict, 'first call')
+            if first is None:
+                return
+            if pre == 'delete_item':
+                del data['a']
+            elif pre != 'again':
+                try:
+                    g0 = graphs(data, 0)
+                except RuntimeError:
+                    g0 = CV.conversion_graph(o_arg, t_arg, scatter_arg, 'elastic')
+                between_calls(pre, data, first[1], g0, ctx)
+        elif pre == 'deepcopy_input':
+            data = copy.deepcopy(data)
+        elif pre == 'after_refusal':
+            miss = ax['miss']
+            saved = data.coords[miss]
+            del data.coords[miss]
+            v1 = G.decide(origin, target, scatter, [x for x in have if x != miss])[0]
+            if first_call(data, v1, f'call without {miss}') is None:
+                return
+            ctx.count('sequence:first_call:' + v1)
+            data.coords[miss] = saved
+        elif pre == 'graph_mutated':
+            for m in ('elastic', 'direct_inelastic', 'indirect_inelastic'):
+                g0 = CV.conversion_graph(o_arg, t_arg, scatter_arg, m)
+                g0.clear()
+                g0['bogus'] = g0[target] = lambda: None
+            try:
+                g0 = graphs(data, 0)
+                for k in list(g0):
+                    g0[k] = lambda: None
+                g0['tof'] = lambda wavelength: wavelength
+            except RuntimeError:
+                pass
+    except Exception:  # noqa: BLE001
+        ctx.oracle_error(f'C02 sequence {pre}')
+        return
+    watch.kernels, watch.graph, watch.k_depth = [], None, 0
+    try:
+        res = call(data)
         outcome = 'ok'
     except RuntimeError as e:
         res, outcome, err = None, 'refuse', e
@@ -406,21 +740,38 @@ def run_config(rng, ctx, scn, CV, watch, index, tracer, variant=None):
     used_graph = watch.graph
     ctx.event('convert')
     ctx.count('model:' + verdict)
-    if variant is not None:
+    if ax:
+        for c in ax['cls']:
+            ctx.hit((AXIS_CLASSES | HEAVY_CLASSES)[c])
+            ctx.count(f'class:{c}:{verdict}')
+    elif variant is not None:
         ctx.hit(CONTENTS[vkeys['contents']])
         ctx.count(f'contents:{vkeys["contents"]}:{verdict}')
+    if outcome == 'refuse' and isinstance(err, sc.VariancesError) and vclass and vclass.startswith('undefined'):
+        # scipp's arithmetic does not define this operation for operands with variances (broadcast, sin, vector
+        # assembly) and says so with a RuntimeError: counted, nothing to compare
+        ctx.count('variances:refused_by_scipp:' + vclass)
+        return
     if outcome != verdict:
         if verdict == 'ok':
-            ctx.violation('refused_derivable', f'convert raised RuntimeError although {target} is derivable from the '
-                          f'coordinates present ({err})', case, target=target, origin=origin, **vkeys)
+            ctx.violation('refused_derivable', f'convert raised {type(err).__name__} although {target} is derivable '
+                          f'from the coordinates present ({err})', case, target=target, origin=origin, **vkeys)
         else:
             ctx.violation('answered_underivable', f'convert returned although {target} is not derivable ({nodes})',
                           case, target=target, origin=origin, **vkeys)
         return
+    if first is not None:
+        ctx.event('second_use')
+        if first[0] != outcome:
+            ctx.violation('second_use', f'the same call gave {first[0]} the first time and {outcome} the second time '
+                          f'({pre} in between)', case, pre=pre)
+        elif outcome == 'ok' and not _same_result(first[1], res, target):
+            ctx.violation('second_use', f'the same call gave a different result the second time ({pre} in between)',
+                          case, pre=pre)
     # ---- the reported graph is the one that is used
+    gstyle = (index // 3) % 3  # positional / keyword / mixed
     try:
-        reported = (CV.deduce_conversion_graph(data, origin, target, scatter_arg) if index % 2 else
-                    CV.deduce_conversion_graph(data=data, origin=origin, target=target, scatter=scatter_arg))
+        reported = graphs(data, gstyle)
         rep_ok = True
     except RuntimeError:
         reported, rep_ok = None, False
@@ -440,8 +791,10 @@ def run_config(rng, ctx, scn, CV, watch, index, tracer, variant=None):
                                                                   reported=sorted(map(repr, reported))))
     # the explicit-mode factory must agree with the deduced one
     try:
-        explicit = (CV.conversion_graph(origin, target, scatter_arg, mode) if index % 2 else
-                    CV.conversion_graph(origin=origin, target=target, scatter=scatter_arg, energy_mode=mode))
+        m_arg = form(mode)
+        explicit = (CV.conversion_graph(o_arg, t_arg, scatter_arg, m_arg) if gstyle == 0 else
+                    CV.conversion_graph(origin=o_arg, target=t_arg, scatter=scatter_arg, energy_mode=m_arg)
+                    if gstyle == 1 else CV.conversion_graph(o_arg, t_arg, scatter=scatter_arg, energy_mode=m_arg))
         if set(map(repr, explicit)) != set(map(repr, reported)) or any(explicit[k] is not reported[k] for k in reported):
             ctx.violation('graph_report', f'conversion_graph({origin}, {target}, {scatter}, {mode}) differs from the '
                           'graph deduce_conversion_graph reports for data in that mode', case)
@@ -452,11 +805,28 @@ def run_config(rng, ctx, scn, CV, watch, index, tracer, variant=None):
     if graph_key_nodes(reported) != set(table):
         ctx.violation('graph_content', f'reported graph nodes {sorted(graph_key_nodes(reported))} differ from the '
                       f'documented rule set {sorted(table)}', case)
+    # ---- the reported graph is a transform_coords graph: applied by the caller it gives what convert gave
+    if ax or index % 13 == 5:
+        try:
+            via = data.transform_coords(t_arg, graph=reported)
+        except Exception as e:  # noqa: BLE001
+            ctx.violation('graph_report', f'transform_coords with the reported graph raised {type(e).__name__} ({e}) '
+                          'although convert succeeded', case, via='transform_coords')
+        else:
+            ctx.event('via_graph')
+            a, b = (tuple(get_coord(x, target, binned, w) for w in ('values', 'variances')) for x in (via, res))
+            if not all(p[1:] == q[1:] and (p[0] is None) == (q[0] is None) and (
+                    p[0] is None or np.array_equal(p[0], q[0], equal_nan=True)) for p, q in zip(a, b, strict=True)):
+                ctx.violation('graph_report', f'transform_coords with the reported graph gives a coordinate {target} '
+                              'different from the one convert returned', case, via='transform_coords')
     # ---- a supplied coordinate is still the supplied one afterwards (never replaced by a derived one)
     if variant is not None or index % 4 == 2:
         check_supplied(ctx, data, res, present, case, vkeys)
     # ---- kernels that ran = derivation the model predicts (never a quantity of the wrong mode)
-    want_k = sorted(expected_kernel(n, table[n], mode) for n in nodes)
+    want_k = sorted(expected_kernel(nd, table[nd], mode) for nd in nodes)
+    if ax.get('items') == 2:
+        # one derivation per item (each item has its own events)
+        executed, want_k = sorted(set(executed)), sorted(set(want_k))
     if sorted(executed) != want_k:
         ctx.violation('wrong_kernels', f'kernels executed {sorted(executed)} but the documented derivation needs '
                       f'{want_k}', case, mode=mode, **vkeys)
@@ -467,7 +837,12 @@ def run_config(rng, ctx, scn, CV, watch, index, tracer, variant=None):
         return
     try:
         with np.errstate(all='ignore'):
-            mv = G.evaluate(nodes, model_values({k: values[k] for k in [*present, *AUX, origin]}), table, mode)
+            mv_in = model_values({k: values[k] for k in have})
+            if counts is not None and origin in G.used_inputs(target, have, table):
+                # several events per pixel: the per-pixel coordinates apply to every event of the pixel
+                mv_in = {k: (np.repeat(x, counts, axis=0) if k in PER_PIXEL and k != origin else x)
+                         for k, x in mv_in.items()}
+            mv = G.evaluate(nodes, mv_in, table, mode)
         want = mv[target]
         got, unit, ev_level = get_coord(res, target, binned)
         if got is None:
@@ -483,7 +858,8 @@ def run_config(rng, ctx, scn, CV, watch, index, tracer, variant=None):
         g = got.astype(si.LD) * f
         # the result has one value per selected pixel / event, also when there are none
         if ev_level:
-            shape = (N_EVENTS[select], *np.shape(want)[np.ndim(want) - (target in VECTOR_TARGETS):])
+            n_ev = int(counts.sum()) if counts is not None else n if select is None else N_EVENTS[select]
+            shape = (n_ev, *np.shape(want)[np.ndim(want) - (target in VECTOR_TARGETS):])
         else:
             shape = np.shape(want)
         if g.shape != shape:
@@ -510,6 +886,28 @@ def run_config(rng, ctx, scn, CV, watch, index, tracer, variant=None):
             same = (np.isnan(g.astype(np.float64)) & np.isnan(np.asarray(w).astype(np.float64))) | (g == w)
         err = np.where(same, 0, err)
         worst = float(np.max(err)) if err.size else 0.0
+        # ---- uncertainty of the target: first-order propagation where that is defined
+        vjudged = None
+        if vn:
+            gv = get_coord(res, target, binned, 'variances')[0]
+            if vclass == 'unused':
+                vjudged = ('spurious', 0.0) if gv is not None else ('none', 0.0)
+            elif vclass == 'defined':
+                if gv is None:
+                    vjudged = ('lost', 0.0)
+                else:
+                    wv, decided = G.first_order_variance(target, vn, have, table, mv, mode, vvar)
+                    gvl = gv.astype(si.LD) * f * f
+                    if gvl.shape != g.shape:
+                        vjudged = ('shape', 0.0)
+                    else:
+                        wv, decided = np.broadcast_to(wv, g.shape), np.broadcast_to(decided, g.shape)
+                        with np.errstate(all='ignore'):
+                            ve = np.where(decided, np.abs(gvl - wv) / np.abs(wv), 0)
+                        ctx.count('undecided:variance', int(np.sum(~decided)))
+                        vjudged = ('compared', float(np.max(ve)) if ve.size else 0.0) if np.any(decided) else None
+            else:
+                ctx.count('variances:not_judged:' + vclass)
     except Exception:  # noqa: BLE001
         ctx.oracle_error(f'C02 value {origin}->{target}')
         return
@@ -548,13 +946,189 @@ def run_config(rng, ctx, scn, CV, watch, index, tracer, variant=None):
             except Exception:  # noqa: BLE001
                 ctx.oracle_error(f'C02 chained {origin}->{target}->{t2}')
     ctx.event('value')
-    if variant is not None:
+    if ax:
+        ctx.event('value:' + ax['family'])
+    elif variant is not None:
         ctx.event('value:' + vkeys['contents'])
     ctx.dev(f'value.{target}', worst)
     if not (worst <= 1e-9):
         ctx.violation('value', f'{target} from {origin}: differs from the documented formulas applied to the '
                       f'coordinates present by {worst:.3g} (supplied coordinates take precedence)', case,
                       target=target, origin=origin, **vkeys)
+    if vjudged:
+        how, x = vjudged
+        ctx.event('variance:' + how)
+        if how == 'compared':
+            ctx.event('variance:' + ('origin' if vn == origin else 'other'))
+            ctx.dev(f'variance.{target}', x)
+            if not (x <= 1e-9):
+                ctx.violation('variance', f'{target} from {origin}: {vn} carries variances; the variance of the '
+                              f'result differs by {x:.3g} (relative) from first-order propagation through the '
+                              f'documented formula, (d {target} / d {vn})^2 var({vn})', case, target=target,
+                              origin=origin, how='value')
+        elif how != 'none':
+            ctx.violation('variance', f'{target} from {origin}: {vn} carries variances; variances of the result: '
+                          + {'lost': 'none although the target depends on it',
+                             'spurious': 'present although the target does not depend on it',
+                             'shape': 'shape differs from the values'}[how], case, target=target, origin=origin,
+                          how=how)
+
+
+_SCALAR_LEAVES = ('L1', 'incident_energy')
+_NODE_DIMS = ('Ltotal', 'wavelength', 'two_theta')
+_GENERIC_DIMS = ('event', 'x', 'row')
+_POSITIONS = ['position', 'source_position', 'sample_position']
+FAMILIES = ('variances', 'masks', 'dims', 'items', 'names', 'second', 'between', 'subclass', 'ragged')
+
+
+def _subset_index(base, sub):
+    return base * 2048 + sum(_BIT[x] for x in set(sub))
+
+
+def axis_plan(seed):
+    """[(index, variant)] for the classes of AXIS_CLASSES.  For every (origin, target, scatter): everything
+    supplied, the shallowest sufficient subset(s), positions only, one subset the model refuses (a member of the
+    shallowest subset removed) and one with a second / bystander energy coordinate; on each of them one case per
+    class family (sub-classes rotate separately for derivable and refused configurations, so each meets both), and
+    - where the target is derivable - one or more cases per non-vector coordinate the derivation reads, carrying
+    variances."""
+    rng = np.random.Generator(np.random.PCG64([seed, 97]))
+    out, rot, seen = [], {}, set()
+
+    def nxt(key, options):
+        k = rot.get(key, 0)
+        rot[key] = k + 1
+        return options[k % len(options)]
+
+    def emit(index, axis, container=None, binned=None, select=None):
+        j = len(out)
+        v = {'container': container or ('dataarray', 'dataset')[j % 2],
+             'binned': bool((j // 2) % 2) if binned is None else binned, 'copy': j % 8 >= 4, 'axis': axis}
+        if select:
+            v['select'] = select
+        out.append((index, v))
+
+    for base in range(4 * 16 * 2):
+        origin, target, scatter, _ = config_of(base * 2048)
+        en = ('incident_energy', 'final_energy')[(base // 2) % 2]
+        other = ('incident_energy', 'final_energy')[1 - (base // 2) % 2]
+        extra = [en] if target == 'energy_transfer' else []
+        subsets = [[*G.SUBSET[:9], *extra], [*_POSITIONS, *extra]]
+        shallow = []
+        for mode in (('direct_inelastic', 'indirect_inelastic') if target == 'energy_transfer' else ('elastic',)):
+            sh = G.shallow_inputs(target, G.rules(origin, target, scatter, mode), given=(origin, *AUX))
+            if sh:
+                shallow.append(sh)
+        subsets += shallow
+        if shallow:
+            sh = shallow[0]
+            drop = sh[int(rng.integers(len(sh)))]
+            subsets.append([x for x in sh if x != drop])
+        subsets.append([*G.SUBSET[:9], *extra, other if extra else en])
+        for sub in subsets:
+            index = _subset_index(base, sub)
+            if index in seen:
+                continue
+            seen.add(index)
+            present = [x for x in G.SUBSET if x in sub]
+            have = [*present, *AUX, origin]
+            verdict, nodes, mode = G.decide(origin, target, scatter, have)
+            leaves = []
+            if verdict == 'ok':
+                leaves = G.used_inputs(target, have, G.table_for(origin, target, scatter, mode))
+                # ---- (a) variances
+                for leaf in leaves:
+                    if leaf in VECTORS or leaf in AUX:
+                        continue
+                    if leaf == origin:
+                        layouts = [(False, None, 'var:origin:dense'), (True, None, 'var:origin:events'),
+                                   (*nxt('var-single', [(False, 'scalar'), (True, 'scalar'), (False, 'one'),
+                                                        (True, 'one')]), 'var:origin:single')]
+                    elif leaf in _SCALAR_LEAVES:
+                        layouts = [(False, 'scalar', 'var:scalar'),
+                                   (*nxt('var-scalar', [(False, None), (True, None), (True, 'scalar'), (False, 'one')]),
+                                    'var:scalar')]
+                    else:
+                        layouts = [(False, None, 'var:perpixel'),
+                                   (*nxt('var-pp', [(True, None), (False, 'scalar'), (False, 'one'), (True, 'one'),
+                                                    (True, 'scalar')]), 'var:perpixel')]
+                    for binned, select, cls in layouts:
+                        datavar = nxt('datavar', [False, True, False])
+                        emit(index, {'family': 'variances', 'cls': [cls, *(['var:data'] if datavar else [])],
+                                     'var': leaf, 'datavar': datavar}, binned=binned, select=select)
+            idle = [x for x in present if x not in leaves and x not in VECTORS]
+            if idle and verdict == 'ok':
+                emit(index, {'family': 'variances', 'cls': ['var:bystander'], 'var': nxt('idle', idle)},
+                     select=nxt('idle-select', [None, None, 'scalar']))
+            # ---- (b) masks
+            m, b = nxt(('masks', verdict), [('pixel', False), ('bin', True), ('event', True), ('both', False),
+                                            ('both', True)])
+            emit(index, {'family': 'masks', 'cls': ['masks:' + m], 'masks': m}, binned=b)
+            # ---- (c) dimension names
+            cls, pd, ed, b = nxt(('dims', verdict), [
+                ('dims:origin', origin, None, False), ('dims:target', target, None, False),
+                ('dims:node', nxt('node', _NODE_DIMS), None, False),
+                ('dims:generic', nxt('generic', _GENERIC_DIMS), None, False),
+                ('dims:event', None, origin, True), ('dims:event', None, target, True),
+                ('dims:event', None, 'pixel', True), ('dims:event', 'event', 'x', True),
+                ('dims:origin', origin, 'event', True), ('dims:target', target, origin, True)])
+            axis = {'family': 'dims', 'cls': [cls], 'pixdim': pd}
+            if ed:
+                axis['evdim'] = ed
+            emit(index, axis, binned=b)
+            # ---- containers: number of items
+            it, b = nxt(('items', verdict), [(0, False), ('deleted', False), (2, False), (2, True)])
+            axis = {'family': 'items', 'cls': [f'items:{it}'], 'items': it}
+            if it == 'deleted':
+                axis['pre'] = 'delete_item'
+            emit(index, axis, container='dataset', binned=b)
+            # ---- (e) names
+            form = nxt(('names', verdict), list(NAME_FORMS))
+            emit(index, {'family': 'names', 'cls': ['names:' + form], 'names': form})
+            # ---- (g) second use
+            pre = nxt(('second', verdict), ['again', 'after_refusal', 'graph_mutated', 'deepcopy_input'])
+            axis = {'family': 'second', 'cls': ['second:' + pre], 'pre': pre}
+            if pre == 'after_refusal':
+                cand = [x for x in (leaves or present) if x in present]
+                if cand:
+                    axis['miss'] = nxt('miss', cand)
+                else:
+                    axis.update(pre='again', cls=['second:again'])
+            emit(index, axis)
+            # ---- (j) display / copy / comparison / serialisation between two calls
+            pre = nxt(('between', verdict), ['repr', 'copy', 'eq', 'pickle_graph'])
+            emit(index, {'family': 'between', 'cls': ['between:' + pre], 'pre': pre})
+            # ---- (i) caller's subclass of the container classes
+            emit(index, {'family': 'subclass', 'cls': ['subclass'], 'subclass': True})
+            # ---- bins of different sizes
+            emit(index, {'family': 'ragged', 'cls': ['ragged'],
+                         'counts': nxt('ragged', [[2, 0, 3], [0, 1, 4], [3, 2, 0], [1, 0, 0]])}, binned=True)
+    return out
+
+
+def heavy_plan(seed):
+    """Per run, on a shard of its own: for each of three large layouts one conversion per origin, the target
+    drawn from those derivable from positions (+ incident energy)."""
+    rng = np.random.Generator(np.random.PCG64([seed, 96]))
+    big = (1 << 20) + 7
+    cut = np.sort(rng.integers(1, big, size=3))
+    ragged = np.diff([0, *cut, big]).tolist()
+    ragged.insert(int(rng.integers(5)), 0)
+    layouts = [('heavy:dense', {'n': big}, False), ('heavy:events', {'n': 3, 'counts': [400001] * 3}, True),
+               ('heavy:ragged', {'n': 5, 'counts': ragged}, True)]
+    out = []
+    for cls, lay, binned in layouts:
+        for origin in G.ORIGINS:
+            sub = [*_POSITIONS, 'incident_energy']
+            ok = [(t, s) for t in G.TARGETS for s in (True, False)
+                  if t not in G.GEOMETRY_TARGETS and G.decide(
+                      origin, t, s, [*(sub if t == 'energy_transfer' else _POSITIONS), *AUX, origin])[0] == 'ok']
+            t, s = ok[int(rng.integers(len(ok)))]
+            base = ((G.ORIGINS.index(origin) * 16 + G.TARGETS.index(t)) * 2 + int(s))
+            index = _subset_index(base, sub if t == 'energy_transfer' else _POSITIONS)
+            out.append((index, {'container': ('dataarray', 'dataset')[len(out) % 2], 'binned': binned, 'copy': False,
+                                'axis': {'family': 'heavy', 'cls': [cls], **lay}}))
+    return out
 
 
 def quick_indices(rng):
@@ -570,20 +1144,39 @@ def quick_indices(rng):
 
 def plan(tier, seed):
     n = 16
-    return [{'part': i, 'parts': n} for i in range(n)]
+    # the last shard holds the heavy cases of the run (sizes beyond 2**20) and nothing else
+    return [*({'part': i, 'parts': n} for i in range(n)), {'part': n, 'parts': n, 'heavy': True}]
 
 
 def requirements(tier):
     ev = {'convert': 5000, 'value': 1000, 'graph_identity': 1000, 'outer_layout': 100, 'chained': 200,
-          'supplied_kept': 5000}
+          'supplied_kept': 5000, 'via_graph': 1000, 'second_use': 300, 'sequence_step': 300,
+          'variance:compared': 150, 'variance:origin': 100, 'variance:other': 40, 'variance:none': 20}
     # every contents class reached the value comparison, not only the outcome
     ev.update({'value:' + k: n for k, n in (('empty', 200), ('one', 50), ('scalar', 50), ('noevents', 50),
                                             ('nan_all', 300), ('nan_some', 100), ('inf_all', 50), ('zero_all', 50),
                                             ('one+nan_all', 30), ('scalar+nan_all', 30))})
-    return {'events': ev,
-            'counters': {'model:ok': 1000, 'model:refuse': 1000, 'contents:empty:ok': 200,
-                         'contents:empty:refuse': 200},
-            'forced': ['supplied coordinates unaligned', *CONTENTS.values()]}
+    ev.update({'value:' + f: 100 for f in FAMILIES})
+    ev['value:heavy'] = 12
+    counters = {'model:ok': 1000, 'model:refuse': 1000, 'contents:empty:ok': 200, 'contents:empty:refuse': 200}
+    # every class met derivable and refused configurations (variances: derivable only)
+    for c in AXIS_CLASSES:
+        counters[f'class:{c}:ok'] = 5
+        if not c.startswith('var:') and c != 'second:after_refusal':
+            counters[f'class:{c}:refuse'] = 5
+    return {'events': ev, 'counters': counters,
+            'forced': ['supplied coordinates unaligned', *CONTENTS.values(), *AXIS_CLASSES.values(),
+                       *HEAVY_CLASSES.values()]}
+
+
+def _run_variants(ctx, shard, items, run_one, tag_of, max_samples):
+    for k, (index, variant) in enumerate(items):
+        before = ctx.n_violations
+        run_one(k, index, variant)
+        ctx.case((index, *tag_of(variant), variant['container'], variant['binned']))
+        if k < 2 or (ctx.n_violations > before and len(ctx.samples) < max_samples):
+            o, t, s, p = config_of(index)
+            ctx.sample({'index': index, 'origin': o, 'target': t, 'scatter': s, 'present': p, 'variant': variant})
 
 
 def run(shard, ctx):
@@ -594,7 +1187,10 @@ def run(shard, ctx):
     from scippneutron.core import conversions as CV
 
     rng = np.random.Generator(np.random.PCG64([shard['seed'], shard['index'], 2]))
-    if shard['tier'] == 'thorough':
+    heavy = bool(shard.get('heavy'))
+    if heavy:
+        todo = []
+    elif shard['tier'] == 'thorough':
         todo = range(shard['part'], n_configs(), shard['parts'])
         ctx.extra['exhaustive'] = True
         ctx.extra['configurations_total'] = n_configs()
@@ -609,7 +1205,23 @@ def run(shard, ctx):
         mod = KT if hasattr(KT, name) else KB
         tr.watch(getattr(mod, name), name, on_start=watch.kernel_start, on_return=watch.kernel(name))
     tr.watch(SCC.transform_coords, 'transform_coords', on_start=watch.transform)
+
+    def axis_tag(variant):
+        ax = variant['axis']
+        return ('class', *ax['cls'], variant.get('select', ''), ax.get('var', ''), ax.get('pixdim', ''),
+                ax.get('evdim', ''))
+
     with tr:
+        if heavy:
+            hplan = heavy_plan(shard['seed'])
+            ctx.extra['heavy_cases'] = len(hplan)
+
+            def one(k, index, variant):
+                vrng = np.random.Generator(np.random.PCG64([shard['seed'], index, 5, k]))
+                run_config(vrng, ctx, scn, CV, watch, index, tr, variant=variant)
+
+            _run_variants(ctx, shard, hplan, one, axis_tag, 8)
+            return
         for k, index in enumerate(todo):
             before = ctx.n_violations
             run_config(rng, ctx, scn, CV, watch, index, tr)
@@ -620,15 +1232,22 @@ def run(shard, ctx):
         # degenerate contents of the supplied coordinates (both tiers, the same deterministic classes)
         vplan = variant_plan(shard['seed'])
         ctx.extra['degenerate_content_cases'] = len(vplan)
-        for k, (index, variant) in enumerate(vplan[shard['part']::shard['parts']]):
-            before = ctx.n_violations
+
+        def one(k, index, variant):
             vrng = np.random.Generator(np.random.PCG64([shard['seed'], index, 3, k]))
             run_config(vrng, ctx, scn, CV, watch, index, tr, variant=variant)
-            tag = ':'.join([variant.get('select', ''), *variant.get('special', ())])
-            ctx.case((index, tag, variant['container'], variant['binned']))
-            if k < 2 or (ctx.n_violations > before and len(ctx.samples) < 8):
-                o, t, s, p = config_of(index)
-                ctx.sample({'index': index, 'origin': o, 'target': t, 'scatter': s, 'present': p, 'variant': variant})
+
+        _run_variants(ctx, shard, vplan[shard['part']::shard['parts']], one,
+                      lambda v: (':'.join([v.get('select', ''), *v.get('special', ())]),), 8)
+        # further input classes: variances, masks, dimension names, item counts, name types, call sequences ...
+        aplan = axis_plan(shard['seed'])
+        ctx.extra['input_class_cases'] = len(aplan)
+
+        def one(k, index, variant):
+            vrng = np.random.Generator(np.random.PCG64([shard['seed'], index, 4, k]))
+            run_config(vrng, ctx, scn, CV, watch, index, tr, variant=variant)
+
+        _run_variants(ctx, shard, aplan[shard['part']::shard['parts']], one, axis_tag, 8)
 
 
 TECHNIQUE = ('runtime outcome monitor on convert() + trace of the kernels that ran and of the graph handed to '
@@ -638,7 +1257,10 @@ LEVEL_TEXT = ('exploration, exhaustive in the configuration part: thorough enume
               '(value / RuntimeError / anything else), the kernels that actually ran, the graph actually used vs the '
               'graph reported, and the target values are compared with an independent executable model of the '
               'documented derivation rule evaluated in long double on mutually inconsistent coordinates. Coordinate '
-              'values are sampled (one random draw per configuration).')
+              'values are sampled (one random draw per configuration).  Further input classes (variances with a first-'
+              'order propagation oracle, masks, dimension names, item counts of Datasets, string / flag types, call '
+              'sequences, display / copy between calls, subclasses, ragged bins, sizes beyond 2**20) are '
+              'deterministic parts of every run on five coordinate subsets per (origin, target, scatter).')
 LEVEL_NOTE = ('trusted: the derivation rule as documented in the user guide, numpy long double, scipp '
               'transform_coords as the engine being driven')
 DESIGN_REF = 'DESIGN.md section 4, C02'
